@@ -100,6 +100,22 @@ def correspondence(ctx, model_ok=True):
             failures.append({"what": "output depends on whether the collector runs (collect at every allocation, freed memory reused)", "program": src, "name": name,
                              "always": ca, "never": cn, "modules": {k: v for k, v in mods.items() if k in src},
                              "signature": "schedule-dependent output (memory reused)", "failing_input": True})
+    # volume under the paced schedule (the one optimised builds run): thousands of records of every kind kept through every kind of holder,
+    # then verified; in the optimised build with its own pacing, and in the checked build (a collection at every allocation)
+    pv = [(n, s_, {}) for n, s_ in probes_gc.paced_volume_programs(6000 if ctx.thorough else 4000)]
+    runs = [("optimised build, paced", ctx.runner, {"gc": "default"})]
+    try:
+        runs.append(("checked build", ctx.build_runner("dev", ()), {"gc": "default"}))
+    except Exception as e:
+        broken.append("dev harness build failed: %s" % str(e)[-200:])
+    for label, exe, mode in runs:
+        todo = pv if label.startswith("optimised") else [(n, s_.replace("< 4000", "< 300").replace("< 6000", "< 300"), m) for n, s_, m in pv]
+        vres, _ = progs.run_programs(exe, todo, mode, steps_budget=400000000, tag="v", timeout_per_batch=900)
+        for (name, src, _), r in zip(todo, vres):
+            c = progs.canon_step(r)
+            if c[0] != "ok" or list(c[2]) != ["0"]:
+                failures.append({"what": "records built and kept under the %s schedule were damaged (%s prints %s, expected ['0'])" % (label, name, str(c)[:160]),
+                                 "program": src, "name": name, "build": label, "signature": "paced volume " + name.split(".")[1], "failing_input": True})
     # one interpreter fed a HISTORY of snippets (the REPL): runs that end in uncaught errors - in a function that had stored a closure over
     # its locals in a global, in a fiber several fibers deep whose callers are waiting, in a module body - followed by snippets that use what
     # the failed runs left behind; what a later snippet can still reach must be intact whatever the collector did in between
